@@ -4,6 +4,12 @@ From SV Require Import Base Json Canon Sync SyncObs CorrC13 CorrC14 CorrC15.
 
 Definition nofl : fl -> str := fun _ => [].
 
+Definition wit_C13_w1 : sinput :=
+  {| i_src := {| p_top := (@nil (str * node)); p_ws := [([57;98;102;100;50;57;100;102;48;55;54;55;52;98;99;52;97;97;57;54;48;99;102;54;54;49;98;53;97;99;100;50]%N, (Dir [([116;97;103;115]%N, (File (Bytes [65]%N) (8388608000)%Z)); ([115;105;103;110;97;99;95;115;116;97;116;101;112;111;105;110;116;46;106;115;111;110]%N, (File (JDoc (JObj [([97]%N, (JInt (0)%Z))])) (10066329600)%Z))]))] |}; i_dst := {| p_top := (@nil (str * node)); p_ws := [([57;98;102;100;50;57;100;102;48;55;54;55;52;98;99;52;97;97;57;54;48;99;102;54;54;49;98;53;97;99;100;50]%N, (Dir [([115;105;103;110;97;99;95;115;116;97;116;101;112;111;105;110;116;46;106;115;111;110]%N, (File (JDoc (JObj [([97]%N, (JInt (0)%Z))])) (10066329600)%Z))]))] |}; i_opts := {| o_strategy := (Some FS_always); o_docsync := (DS_bykey None); o_recursive := false; o_exclude := (tabf (@nil (str * bool))); o_selection := None; o_check_schema := false; o_deep := false; o_dry_run := false |}; i_entry := E_project; i_parallel := false |}.
+
+Definition wit_C13_w2 : sinput :=
+  {| i_src := {| p_top := (@nil (str * node)); p_ws := [([57;98;102;100;50;57;100;102;48;55;54;55;52;98;99;52;97;97;57;54;48;99;102;54;54;49;98;53;97;99;100;50]%N, (Dir [([115;105;103;110;97;99;95;115;116;97;116;101;112;111;105;110;116;46;106;115;111;110;46;98;97;107]%N, (File (Bytes [65]%N) (8388608000)%Z)); ([115;105;103;110;97;99;95;115;116;97;116;101;112;111;105;110;116;46;106;115;111;110]%N, (File (JDoc (JObj [([97]%N, (JInt (0)%Z))])) (10066329600)%Z))]))] |}; i_dst := {| p_top := (@nil (str * node)); p_ws := [([57;98;102;100;50;57;100;102;48;55;54;55;52;98;99;52;97;97;57;54;48;99;102;54;54;49;98;53;97;99;100;50]%N, (Dir [([115;105;103;110;97;99;95;115;116;97;116;101;112;111;105;110;116;46;106;115;111;110]%N, (File (JDoc (JObj [([97]%N, (JInt (0)%Z))])) (10066329600)%Z))]))] |}; i_opts := {| o_strategy := (Some FS_always); o_docsync := (DS_bykey None); o_recursive := false; o_exclude := (tabf (@nil (str * bool))); o_selection := None; o_check_schema := false; o_deep := false; o_dry_run := false |}; i_entry := E_project; i_parallel := false |}.
+
 Definition wit_C15_w1 : sinput :=
   {| i_src := {| p_top := (@nil (str * node)); p_ws := [([57;98;102;100;50;57;100;102;48;55;54;55;52;98;99;52;97;97;57;54;48;99;102;54;54;49;98;53;97;99;100;50]%N, (Dir [([120]%N, (File (Bytes [65]%N) (8388608000)%Z)); ([115;105;103;110;97;99;95;115;116;97;116;101;112;111;105;110;116;46;106;115;111;110]%N, (File (JDoc (JObj [([97]%N, (JInt (0)%Z))])) (10066329600)%Z))]))] |}; i_dst := {| p_top := (@nil (str * node)); p_ws := [([57;98;102;100;50;57;100;102;48;55;54;55;52;98;99;52;97;97;57;54;48;99;102;54;54;49;98;53;97;99;100;50]%N, (Dir [([115;105;103;110;97;99;95;115;116;97;116;101;112;111;105;110;116;46;106;115;111;110]%N, (File (JDoc (JObj [([97]%N, (JInt (0)%Z))])) (10066329600)%Z))]))] |}; i_opts := {| o_strategy := None; o_docsync := (DS_bykey None); o_recursive := false; o_exclude := (tabf (@nil (str * bool))); o_selection := None; o_check_schema := false; o_deep := false; o_dry_run := true |}; i_entry := E_project; i_parallel := false |}.
 
@@ -81,4 +87,18 @@ Proof. vm_compute. repeat split. Qed.
 Lemma w1_C14_facts :
   docs_ok nofl wit_C14_w1 (c_obs (model_case nofl cfg_current wit_C14_w1)) = false
   /\ docs_ok nofl wit_C14_w1 (c_obs (model_case nofl cfg_fixed wit_C14_w1)) = true.
+Proof. vm_compute. repeat split. Qed.
+
+(* C13: a source-only file named 'tags' is not copied into the existing job (filecmp.DEFAULT_IGNORES) *)
+Lemma w1_C13_facts :
+  ob_exn (c_obs (model_case nofl cfg_current wit_C13_w1)) = None
+  /\ superset nofl wit_C13_w1 (c_obs (model_case nofl cfg_current wit_C13_w1)) = false
+  /\ holds_C13 nofl (model_case nofl cfg_fixed wit_C13_w1) = true.
+Proof. vm_compute. repeat split. Qed.
+
+(* C13: a source-only file named 'signac_statepoint.json.bak' is not copied (un-anchored implicit pattern) *)
+Lemma w2_C13_facts :
+  ob_exn (c_obs (model_case nofl cfg_current wit_C13_w2)) = None
+  /\ superset nofl wit_C13_w2 (c_obs (model_case nofl cfg_current wit_C13_w2)) = false
+  /\ holds_C13 nofl (model_case nofl cfg_fixed wit_C13_w2) = true.
 Proof. vm_compute. repeat split. Qed.
